@@ -515,6 +515,7 @@ class Ctx:
         self.seed = seed
         self.extra = extra or {}
         self.drv = None
+        self.known_sigs = set(k['signature'] for k in load_known(module.ID))
         self.reset()
 
     def reset(self):
@@ -577,6 +578,10 @@ class Ctx:
             return msg
         if msg is None:
             return None
+        if isinstance(msg, tuple) and msg[1] in self.known_sigs:
+            # a listed known finding: recorded, not re-confirmed on a fresh driver
+            self._violation(case, msg)
+            return msg
         if getattr(mod, 'CONFIRM', True):
             # confirm on a fresh driver
             try:
@@ -625,6 +630,8 @@ class Ctx:
         return None
 
     def _violation(self, case, msg, sig=None):
+        if isinstance(msg, tuple):
+            msg, sig = msg
         s = sig
         if s is None and hasattr(self.module, 'classify'):
             try:
